@@ -342,14 +342,17 @@ def gen_case(rng, idx, maxlen):
 TOPOLOGIES = [
     (5, "i(i(a,b),c)"), (3, "i(a,i(b,c))"), (5, "i(i(a,b),i(c,d))"), (3, "i(i(a,b),i(b,a))"), (2, "i(i(a,b),i(b,c))"),
     (3, "i(m(a,b,c),d)"), (2, "m(i(a,b),c,i(c,d))"), (2, "i(m(a,b,c),i(a,d))"), (2, "m(a,m(b,c,d),i(a,b))"),
-    (3, "i(p(i(a,b)),c)"), (2, "i(p(i(a,b)),p(i(c,a)))"), (1, "i(p(p(i(a,b))),m(c,a,d))"),
+    (3, "i(p(i(a,b)),c)"), (2, "i(p(i(a,b)),p(i(c,a)))"), (1, "i(p(i(a,b)),m(c,p(a),d))"),
     (3, "i(i(i(a,b),c),d)"), (2, "i(i(a,i(b,c)),d)"), (2, "m(a,i(i(b,c),d),b)"), (2, "i(i(i(a,b),i(c,d)),i(a,i(d,b)))"),
 ]
 
 
+assert all(Tree(t).ok for _, t in TOPOLOGIES)
+
+
 def random_tree_text(rng):
     """a random selection tree within the limits of the drivers (root i|m, <= 6 selectors, depth <= 4)"""
-    budget = [rng.randint(2, MAX_SEL)]
+    budget = [0]
 
     def rec(depth, root=False):
         if not root and (depth >= MAX_DEPTH or budget[0] <= 0 or rng.random() < 0.3 + 0.15 * depth):
@@ -362,6 +365,7 @@ def random_tree_text(rng):
             return "m(%s,%s,%s)" % (rec(depth + 1), rec(depth + 1), rec(depth + 1))
         return "i(%s,%s)" % (rec(depth + 1), rec(depth + 1))
     while True:
+        budget[0] = rng.randint(2, MAX_SEL)
         txt = rec(1, True)
         t = tree_of(txt)
         if t.ok and t.nsel >= 2:       # at least one reference-shaped branch
@@ -527,7 +531,7 @@ def exhaustive_chain(rng, text, shapes, length, start_idx, tick_sets):
     tree = tree_of(text)
     sel_alpha = [{}]
     for k in range(tree.nsel):
-        sel_alpha = [dict(a, **({k: b} if b is not None else {})) for a in sel_alpha for b in [None] + list(range(tree.arity[k]))]
+        sel_alpha = [{**a, **({k: b} if b is not None else {})} for a in sel_alpha for b in [None] + list(range(tree.arity[k]))]
     alpha = [(a, list(t)) for a in sel_alpha for t in tick_sets]
     cases, idx = [], start_idx
 
@@ -684,13 +688,13 @@ def walk(stream, case, out):
     shape, ncons, stage, cmp = "ts", 1, "direct", False
     tree, chained = FLAT[False], False
     tg, sel, cyc, ever_sel = [Ref(), Ref()], None, 0, set()
-    conds, cur = {}, [None] * len(tree.nodes)
+    conds, desig = {}, [None] * len(tree.nodes)
     out = list(out) + ["<none>"] * (len(case.lines) - len(out))
 
     def reset():
-        nonlocal tg, sel, cyc, ever_sel, conds, cur
+        nonlocal tg, sel, cyc, ever_sel, conds, desig
         tg, sel, cyc, ever_sel = [Ref() for _ in range(tree.ntargets)], None, 0, set()
-        conds, cur = {}, [None] * len(tree.nodes)
+        conds, desig = {}, [None] * len(tree.nodes)
 
     for ln, o in zip(case.lines, out):
         w = ln.split()
@@ -746,11 +750,11 @@ def walk(stream, case, out):
         sel_ticks.update({int(k[1:]): int(v) for k, v in toks.items() if re.fullmatch(r"s\d", k)})
         old_path = tree.path(conds)
         conds.update(sel_ticks)
-        old_cur = cur
-        cur = tree.designate(conds, cur)
-        published = sum(1 for i, n in enumerate(tree.nodes) if n.kind != "l" and cur[i] != old_cur[i])
+        old_desig = desig
+        desig = tree.designate(conds, desig)
+        published = sum(1 for i, n in enumerate(tree.nodes) if n.kind != "l" and desig[i] != old_desig[i])
         if sel_ticks:
-            new = cur[0]
+            new = desig[0]
             retarget = new != sel
             if not retarget and new is not None:
                 feats.add("reselect-same")
